@@ -6,3 +6,18 @@ package interpreter
 // runs although its own name is not granted is the violation, whatever lookup
 // path led to it.
 func ZZAllowedExact(name string) bool { return allowedMethods[name] }
+
+var zzAllowSnapshot map[string]bool
+
+// ZZSnapshotAllowList records the allow-list as it is when the process starts
+// serving (before any program is loaded). ZZAllowedAtStart answers from that
+// record: loading a program must not widen what programs may call on the
+// built-in providers.
+func ZZSnapshotAllowList() {
+	zzAllowSnapshot = make(map[string]bool, len(allowedMethods))
+	for k, v := range allowedMethods {
+		zzAllowSnapshot[k] = v
+	}
+}
+
+func ZZAllowedAtStart(name string) bool { return zzAllowSnapshot[name] }
